@@ -166,6 +166,10 @@ type Obs struct {
 	Inits2    [][]int    `json:"inits2"` // addressees (sorted) of every initiate broadcast after the failure
 	Starts    []StartObs `json:"starts"` // every start broadcast of the session
 	Note      string     `json:"note,omitempty"`
+	// the RUNNER could not drive the case (the scripted election messages could not be handed over within
+	// the election window even at its longest, a wait ran into a shortened deadline): says nothing about
+	// the code under test - handed to Coq as Undriven: never judged, counted as broken correspondence
+	Harness string `json:"harness_error,omitempty"`
 	B         *Obs       `json:"b,omitempty"` // duo: the other relayer's observation
 }
 
@@ -539,8 +543,11 @@ func drive(c Case, bullyWait time.Duration) attempt {
 				return
 			default:
 			}
-			if cm.SubCount(c.Sid, comm.TssStartMsg) >= startOrd || cm.SubCount(c.Sid, comm.TssReadyMsg) >= readyOrd ||
-				time.Since(begin) > fk.C07Deadline() {
+			if cm.SubCount(c.Sid, comm.TssStartMsg) >= startOrd || cm.SubCount(c.Sid, comm.TssReadyMsg) >= readyOrd {
+				return
+			}
+			if lim := fk.C07Deadline(); time.Since(begin) > lim {
+				d.Doubt(lim)
 				return
 			}
 		}
@@ -552,8 +559,12 @@ func drive(c Case, bullyWait time.Duration) attempt {
 			case "alive":
 				ty = comm.CoordinatorAliveMsg
 			}
-			sub := bully.WaitSub(c.Sid, ty, 1, done, fk.C07Deadline())
-			if sub == nil || !fk.ScriptPush(sub, t.ids[b.From], []byte{}, fk.C07Deadline(), done) {
+			lim, begin := fk.C07Deadline(), time.Now()
+			sub := bully.WaitSub(c.Sid, ty, 1, done, lim)
+			if sub == nil || !fk.ScriptPush(sub, t.ids[b.From], []byte{}, lim, done) {
+				if !d.Finished() && time.Since(begin) >= lim {
+					d.Doubt(lim)
+				}
 				break
 			}
 		}
@@ -588,8 +599,11 @@ func drive(c Case, bullyWait time.Duration) attempt {
 	}
 	if c.Kind == "silent" && len(c.Msgs1) > 0 {
 		// traffic while the relayer waits for its silent coordinator; it ends with the wait
-		if sub := cm.WaitSub(c.Sid, comm.TssStartMsg, 1, done, fk.C07Deadline()); sub != nil {
+		lim := fk.C07Deadline()
+		if sub := cm.WaitSub(c.Sid, comm.TssStartMsg, 1, done, lim); sub != nil {
 			r.timed(t, c.Msgs1, time.Now(), 1, 1, sub.Dead)
+		} else if !d.Finished() {
+			d.Doubt(lim)
 		}
 	}
 	calls1 := len(proc.ReadyCalls())
@@ -606,13 +620,14 @@ func drive(c Case, bullyWait time.Duration) attempt {
 			startOrd = 2
 		}
 		deliverBully(readyOrd, startOrd)
-		sub := cm.WaitAnySub(c.Sid, []fk.ScriptWant{{Type: comm.TssReadyMsg, Ordinal: readyOrd}, {Type: comm.TssStartMsg, Ordinal: startOrd}}, done, fk.C07Deadline())
+		lim := fk.C07Deadline()
+		sub := cm.WaitAnySub(c.Sid, []fk.ScriptWant{{Type: comm.TssReadyMsg, Ordinal: readyOrd}, {Type: comm.TssStartMsg, Ordinal: startOrd}}, done, lim)
 		switch {
 		case sub == nil:
 			select {
 			case <-done:
 			default:
-				d.NoteStuck()
+				d.Expired(lim)
 			}
 		case sub.Type == comm.TssReadyMsg:
 			for _, s := range c.Ready2 {
@@ -624,11 +639,12 @@ func drive(c Case, bullyWait time.Duration) attempt {
 			r.timed(t, c.Msgs2, time.Now(), startOrd, 2, nil)
 		}
 		if bully.AnySub() && !d.Stuck {
-			if !bully.WaitSent(comm.CoordinatorSelectMsg, 1, done, fk.C07Deadline()) {
+			lim := fk.C07Deadline()
+			if !bully.WaitSent(comm.CoordinatorSelectMsg, 1, done, lim) {
 				select {
 				case <-done:
 				default:
-					d.NoteStuck()
+					d.Expired(lim)
 				}
 			}
 		}
@@ -636,6 +652,9 @@ func drive(c Case, bullyWait time.Duration) attempt {
 	cancel()
 	if !d.WaitDone() {
 		o.Note += " Execute did not return"
+	}
+	if d.Unsure {
+		o.Harness = "a wait ran into the shortened deadline"
 	}
 	r.collect(t, &o, calls1, ready1, init1, func(ferr error) bool {
 		var ce *tss.CoordinatorError
@@ -699,24 +718,26 @@ func driveDuo(c Case) Obs {
 		}
 		return nil
 	}
-	stuck := func(r *node) {
+	stuck := func(r *node, lim time.Duration) {
 		select {
 		case <-r.done:
 		default:
-			r.d.NoteStuck()
+			r.d.Expired(lim)
 		}
 	}
 
 	// A's initiate message, if it is addressed to B, and B's genuine answer
 	answered := false
-	if !ra.cm.WaitSent(comm.TssInitiateMsg, 1, ra.done, fk.C07Deadline()) {
-		stuck(ra)
+	lim := fk.C07Deadline()
+	if !ra.cm.WaitSent(comm.TssInitiateMsg, 1, ra.done, lim) {
+		stuck(ra, lim)
 	} else if has(first(ra, comm.TssInitiateMsg).To, b) {
 		if rb.d.Deliver(comm.TssInitiateMsg, 1, a, []byte{}) {
-			if rb.cm.WaitSent(comm.TssReadyMsg, 1, rb.done, fk.C07Deadline()) {
+			lim = fk.C07Deadline()
+			if rb.cm.WaitSent(comm.TssReadyMsg, 1, rb.done, lim) {
 				answered = has(first(rb, comm.TssReadyMsg).To, a)
 			} else {
-				stuck(rb)
+				stuck(rb, lim)
 			}
 		}
 	}
@@ -739,9 +760,10 @@ func driveDuo(c Case) Obs {
 		ps, _ := fk.C07DecodeParams(rb.proc.Runs()[0].Params)
 		if !has(ps, b) {
 			// left out: the relayer is expected to wait for a replacement attempt's start
-			sub := rb.cm.WaitAnySub(c.Sid, []fk.ScriptWant{{Type: comm.TssStartMsg, Ordinal: 2}}, rb.done, fk.C07Deadline())
+			lim = fk.C07Deadline()
+			sub := rb.cm.WaitAnySub(c.Sid, []fk.ScriptWant{{Type: comm.TssStartMsg, Ordinal: 2}}, rb.done, lim)
 			if sub == nil {
-				stuck(rb)
+				stuck(rb, lim)
 			} else {
 				rb.timed(t, c.Msgs2, time.Now(), 2, 2, nil)
 			}
@@ -757,6 +779,9 @@ func driveDuo(c Case) Obs {
 	}
 	if !rb.d.WaitDone() {
 		o.Note += " the other relayer's Execute did not return"
+	}
+	if ra.d.Unsure || rb.d.Unsure {
+		o.Harness = "a wait ran into the shortened deadline"
 	}
 	never := func(error) bool { return false }
 	ra.collect(t, &o, len(ra.proc.ReadyCalls()), ra.cm.CountSent(comm.TssReadyMsg), ra.cm.CountSent(comm.TssInitiateMsg), never, false)
@@ -781,6 +806,9 @@ func runNow(c Case) Obs {
 		a = drive(c, 1500*time.Millisecond)
 		if !a.bullyInTime {
 			a = drive(c, 5*time.Second)
+			if !a.bullyInTime && a.obs.Harness == "" {
+				a.obs.Harness = "the scripted election messages could not be handed over within the election window (5 s)"
+			}
 		}
 	}
 	return a.obs
@@ -1541,6 +1569,12 @@ func coqObs(o Obs) string {
 }
 
 func coq(c Case, o Obs) string {
+	if o.Harness != "" {
+		// the runner could not drive the case: never judged, counted as broken correspondence
+		o2 := o
+		o2.Harness = ""
+		return "Undriven (" + coq(c, o2) + ")"
+	}
 	msg := func(m Msg) string {
 		switch m.Type {
 		case "initiate":
@@ -1644,7 +1678,7 @@ func main() {
 		Coq:       coq,
 		Kind:      kind,
 		NonTrivial: func(c Case, o Obs) bool {
-			return len(o.Runs) > 0 || c.Kind == "silent"
+			return o.Harness == "" && (len(o.Runs) > 0 || c.Kind == "silent")
 		},
 		Rule: "every failure cause (coordinator, communication, tss with culprits, tss with an undecodable culprit, subset, unknown, two causes joined) " +
 			"x {alone, joined with a timeout error on either side, nested joins, %w-wrapped} x {coordinator, other} role of the first attempt x " +
